@@ -925,7 +925,7 @@ def bind_target(target: ast.AST, value: ast.AST, env: Dict[str, ast.AST]) -> Opt
     return None
 
 
-def list_elements(S: Sem, e: ast.AST, at: int, env: Optional[Dict[str, ast.AST]] = None, depth: int = 6) -> Optional[List[ast.AST]]:
+def list_elements(S: Sem, e: ast.AST, at: int, env: Optional[Dict[str, ast.AST]] = None, depth: int = 12) -> Optional[List[ast.AST]]:
     """The explicit elements of a list-valued expression when they can be enumerated statically: literal tuples/lists,
     range(n) with constant n, zip / enumerate of such, comprehensions over such, a local list built by `x = []` and one
     `x.append(v)` inside a loop over such, and single-expression private helpers returning such.  None if not enumerable."""
@@ -952,6 +952,9 @@ def list_elements(S: Sem, e: ast.AST, at: int, env: Optional[Dict[str, ast.AST]]
             return [ast.Tuple(elts=[ast.Constant(value=i), x], ctx=ast.Load()) for i, x in enumerate(inner)]
         if cn in ("list", "tuple") and len(e.args) == 1:
             return list_elements(S, e.args[0], at, {}, depth - 1)
+        if cn == "reversed" and len(e.args) == 1:
+            inner = list_elements(S, e.args[0], at, {}, depth - 1)
+            return None if inner is None else inner[::-1]
         inl = S._inline(e, at, 6, set(), False) if S.inline_helpers else None
         if inl is not None:
             return list_elements(S, inl, at, {}, depth - 1)
@@ -971,6 +974,17 @@ def list_elements(S: Sem, e: ast.AST, at: int, env: Optional[Dict[str, ast.AST]]
                     nxt.append(b)
             outs = nxt
         return [S._subst(e.elt, sub) for sub in outs]
+    if isinstance(e, ast.Subscript) and isinstance(e.slice, ast.Slice):
+        inner = list_elements(S, e.value, at, {}, depth - 1)
+        if inner is None:
+            return None
+        try:
+            lo, hi, stp = (None if x is None else ast.literal_eval(x) for x in (e.slice.lower, e.slice.upper, e.slice.step))
+        except (ValueError, SyntaxError):
+            return None
+        if not all(x is None or isinstance(x, int) for x in (lo, hi, stp)):
+            return None
+        return inner[slice(lo, hi, stp)]
     if isinstance(e, ast.Name):
         ds = S.du.reaching(e.id, at)
         if len(ds) != 1 or ds[0].value is None or ds[0].kind != "assign":
@@ -1000,6 +1014,286 @@ def list_elements(S: Sem, e: ast.AST, at: int, env: Optional[Dict[str, ast.AST]]
             return [S._subst(apps[0].args[0], sub) for sub in envs]
         return list_elements(S, v, ds[0].node, {}, depth - 1)
     return None
+
+
+def return_cases(S: Sem, resolve: bool = False) -> List[Tuple[ast.AST, List[Tuple[str, bool]], ast.stmt]]:
+    """Every value the function can return, with the (canonical) conditions under which it is returned: one case per
+    `return` statement, conditional expressions `a if c else b` split into their two arms."""
+    out: List[Tuple[ast.AST, List[Tuple[str, bool]], ast.stmt]] = []
+    for st in ast.walk(S.node):
+        if not (isinstance(st, ast.Return) and st.value is not None):
+            continue
+        if any(isinstance(p_, (ast.FunctionDef, ast.Lambda)) and p_ is not S.node for p_ in _ancestors(S, st)):
+            continue
+        base = [(t, p) for t, p, _ in S.conditions(st, resolve=resolve)]
+        work: List[Tuple[ast.AST, List[Tuple[str, bool]]]] = [(st.value, base)]
+        while work:
+            v, cs = work.pop()
+            if isinstance(v, ast.IfExp):
+                work.append((v.body, cs + [canon_cond(v.test, True)]))
+                work.append((v.orelse, cs + [canon_cond(v.test, False)]))
+            else:
+                out.append((v, cs, st))
+    return out
+
+
+def _has_object(e: ast.AST) -> bool:
+    return any(isinstance(n, ast.Attribute) for n in ast.walk(e))
+
+
+def unroll_finite_loops(idx: Index, fi: FunctionInfo, want=None, max_elems: int = 8) -> FunctionInfo:
+    """A copy of `fi` in which every `for T in ITER:` whose iterable can be enumerated statically (list_elements) and
+    satisfies `want(elements)` (default: some element mentions an object attribute, i.e. the loop ranges over objects, not over
+    plain integers) is replaced by one copy of its body per element with the loop targets substituted.  Loops containing
+    break/continue/else, or whose body re-binds a loop target, are left alone."""
+    S = Sem(idx, fi)
+    want = want or (lambda els: any(_has_object(x) for x in els))
+    changed = [False]
+
+    def stores(body: List[ast.stmt]) -> Set[str]:
+        return {n.id for st in body for n in ast.walk(st) if isinstance(n, ast.Name) and isinstance(n.ctx, (ast.Store, ast.Del))}
+
+    def rec(body: List[ast.stmt]) -> List[ast.stmt]:
+        out: List[ast.stmt] = []
+        for st in body:
+            if isinstance(st, ast.For) and not st.orelse and not any(isinstance(n, (ast.Break, ast.Continue)) for n in ast.walk(st)):
+                els = list_elements(S, st.iter, S.cfg.node(st))
+                tnames = {n.id for n in ast.walk(st.target) if isinstance(n, ast.Name)}
+                if els is not None and 0 < len(els) <= max_elems and want(els) and not (tnames & stores(st.body)):
+                    envs = [bind_target(st.target, el, {}) for el in els]
+                    if all(e_ is not None for e_ in envs):
+                        inner = rec(st.body)
+                        for env in envs:
+                            out += [S._subst(copy.deepcopy(x), env) for x in inner]
+                        changed[0] = True
+                        continue
+            new = st
+            for fld in ("body", "orelse", "finalbody"):
+                b = getattr(st, fld, None)
+                if isinstance(b, list) and b and isinstance(b[0], ast.stmt) and not isinstance(st, (ast.FunctionDef, ast.AsyncFunctionDef, ast.ClassDef)):
+                    nb = rec(b)
+                    if nb is not b and any(x is not y for x, y in zip(nb, b)) or len(nb) != len(b):
+                        if new is st:
+                            new = copy.copy(st)
+                        setattr(new, fld, nb)
+            if isinstance(st, ast.Try):
+                hs = []
+                for h in st.handlers:
+                    nh = copy.copy(h)
+                    nh.body = rec(h.body)
+                    hs.append(nh)
+                if new is st:
+                    new = copy.copy(st)
+                new.handlers = hs
+            out.append(new)
+        return out
+
+    nb = rec(fi.node.body)
+    if not changed[0]:
+        return fi
+    node = copy.copy(fi.node)
+    node.body = nb
+    node = copy.deepcopy(node)
+    ast.fix_missing_locations(node)
+    return FunctionInfo(name=fi.name, qualname=fi.qualname, module=fi.module, node=node, cls=fi.cls, decorators=list(fi.decorators))
+
+
+
+# ---------------------------------------------------------------------------------------------------------------------
+# de-referencing across comprehension scopes and concatenation normal form
+def comp_binding(S: Sem, n: ast.Name):
+    """(generator, comprehension) that binds the Load-name `n` lexically, or None."""
+    x: ast.AST = n
+    while x in S.pm:
+        par = S.pm[x]
+        if isinstance(par, (ast.ListComp, ast.GeneratorExp, ast.SetComp, ast.DictComp)):
+            for gi, g in enumerate(par.generators):
+                if any(isinstance(t, ast.Name) and t.id == n.id for t in ast.walk(g.target)):
+                    # n must lie in the element / a filter / a later generator, not in this generator's own iterable
+                    inside_iter = any(y is n for y in ast.walk(g.iter))
+                    if not inside_iter:
+                        return g, par
+        if par is S.node:
+            break
+        x = par
+    return None
+
+
+def deref(S: Sem, e: ast.AST, depth: int = 10, at: Optional[int] = None) -> ast.AST:
+    """Copy of the (original, un-copied) expression `e` in which every local with a single plain definition and every
+    comprehension-bound name is replaced by what it stands for: `x` bound by `for x in L` with `L = [f(y) for y in M]`
+    becomes f(M[IT]); `for a, b in zip(A, B)` binds a ↦ element of A, b ↦ element of B.  Names modified in place, with several
+    reaching definitions, or parameters stay as they are.  `IT` is one abstract position shared by all iterables (sound for the
+    element-wise pipelines it is used on, where every stage keeps positions aligned)."""
+    IT = ast.Name(id="IT", ctx=ast.Load())
+
+    def elem_of(it: ast.AST, d: int, at_: Optional[int]) -> ast.AST:
+        if isinstance(it, ast.Name):
+            cb = comp_binding(S, it) if it in S.pm else None
+            if cb is None:
+                try:
+                    a_ = at_ if at_ is not None else S.du.node_of_expr(it)
+                    ds = S.du.reaching(it.id, a_)
+                except Exception:
+                    ds = []
+                if len(ds) == 1 and ds[0].kind == "assign" and ds[0].value is not None and it.id not in S._mutated:
+                    v = ds[0].value
+                    if isinstance(v, (ast.ListComp, ast.GeneratorExp)) and len(v.generators) == 1 and not v.generators[0].ifs and d > 0:
+                        return go(v.elt, d - 1, ds[0].node)
+                    if isinstance(v, ast.Call) and call_name(v) in ("list", "tuple", "np.array", "np.asarray") and len(v.args) == 1 and d > 0:
+                        return elem_of(v.args[0], d - 1, ds[0].node)
+        if isinstance(it, (ast.ListComp, ast.GeneratorExp)) and len(it.generators) == 1 and not it.generators[0].ifs and d > 0:
+            return go(it.elt, d - 1, at_)
+        return ast.Subscript(value=go(it, d - 1, at_), slice=IT, ctx=ast.Load())
+
+    def go(x: ast.AST, d: int, at_: Optional[int]) -> ast.AST:
+        if isinstance(x, ast.Name) and isinstance(x.ctx, ast.Load) and d > 0:
+            cb = comp_binding(S, x) if x in S.pm else None
+            if cb is not None:
+                g, _comp = cb
+                tgt, it = g.target, g.iter
+                if isinstance(tgt, ast.Name):
+                    return elem_of(it, d, at_)
+                if isinstance(tgt, (ast.Tuple, ast.List)) and isinstance(it, ast.Call) and call_name(it) == "zip" and len(it.args) == len(tgt.elts):
+                    for t, a in zip(tgt.elts, it.args):
+                        if isinstance(t, ast.Name) and t.id == x.id:
+                            return elem_of(a, d, at_)
+                return x
+            try:
+                a_ = at_ if at_ is not None else S.du.node_of_expr(x)
+                ds = S.du.reaching(x.id, a_)
+            except Exception:
+                return x
+            if len(ds) == 1 and ds[0].kind == "assign" and ds[0].value is not None and x.id not in S._mutated and x.id not in S.keep_names:
+                return go(ds[0].value, d - 1, ds[0].node)
+            return x
+        if isinstance(x, ast.AST):
+            new = copy.copy(x)
+            for fname, v in ast.iter_fields(x):
+                if isinstance(v, ast.AST) and not isinstance(v, (ast.expr_context, ast.operator, ast.unaryop, ast.cmpop, ast.boolop)):
+                    setattr(new, fname, go(v, d, at_))
+                elif isinstance(v, list):
+                    setattr(new, fname, [go(y, d, at_) if isinstance(y, ast.AST) and not isinstance(y, ast.cmpop) else y for y in v])
+            return new
+        return x
+
+    return go(e, depth, at)
+
+
+def seq_segments(S: Sem, e: ast.AST, at: int, depth: int = 8) -> Optional[List[Tuple[str, ast.AST, int]]]:
+    """Concatenation normal form of a list-valued expression (original nodes): [('el', x, at) | ('seq', xs, at)] in order.
+    Understands list/tuple displays (with *starred parts), `+`, list()/tuple()/np.array(), np.concatenate/np.hstack/np.r_,
+    and a local list built by `b = [...]` followed by unconditional `b.append(x)` / `b.extend(xs)` / `b.insert(0, x)` /
+    `b += xs` statements.  None when the construction is not understood (conditional or loop-carried mutation)."""
+    if depth <= 0:
+        return None
+    if isinstance(e, (ast.List, ast.Tuple)):
+        out: List[Tuple[str, ast.AST, int]] = []
+        for x in e.elts:
+            if isinstance(x, ast.Starred):
+                sub = seq_segments(S, x.value, at, depth - 1)
+                if sub is None:
+                    return None
+                out += sub
+            else:
+                out.append(("el", x, at))
+        return out
+    if isinstance(e, ast.BinOp) and isinstance(e.op, ast.Add):
+        # `seq + 1` is arithmetic on an array, not a concatenation
+        if isinstance(e.right, ast.Constant) or isinstance(e.left, ast.Constant):
+            return [("seq", e, at)]
+        l, r = seq_segments(S, e.left, at, depth - 1), seq_segments(S, e.right, at, depth - 1)
+        if l is None or r is None:
+            return None
+        return l + r
+    if isinstance(e, ast.Call):
+        cn = call_name(e)
+        if cn in ("list", "tuple", "np.array", "np.asarray", "numpy.array", "numpy.asarray") and len(e.args) >= 1:
+            return seq_segments(S, e.args[0], at, depth - 1)
+        if cn in ("np.concatenate", "np.hstack", "numpy.concatenate", "numpy.hstack") and e.args and isinstance(e.args[0], (ast.Tuple, ast.List)):
+            out = []
+            for x in e.args[0].elts:
+                sub = seq_segments(S, x, at, depth - 1)
+                if sub is None:
+                    return None
+                out += sub
+            return out
+        return [("seq", e, at)]
+    if isinstance(e, ast.Subscript) and norm(e.value) in ("np.r_", "numpy.r_") and isinstance(e.slice, ast.Tuple):
+        out = []
+        for x in e.slice.elts:
+            scalar = isinstance(x, ast.Constant) or (isinstance(x, ast.Call) and call_name(x) == "len") or \
+                (isinstance(x, ast.Attribute) and x.attr == "size") or (isinstance(x, ast.Subscript) and isinstance(x.value, ast.Attribute) and x.value.attr == "shape")
+            out.append(("el" if scalar else "seq", x, at))
+        return out
+    if isinstance(e, ast.Name):
+        ds = S.du.reaching(e.id, at)
+        if len(ds) != 1 or ds[0].value is None:
+            return [("seq", e, at)] if len(ds) != 1 else None
+        d0 = ds[0]
+        if d0.kind == "aug":
+            st = d0.stmt
+            if not (isinstance(st, ast.AugAssign) and isinstance(st.op, ast.Add)):
+                return None
+            before = seq_segments(S, ast.copy_location(ast.Name(id=e.id, ctx=ast.Load()), st), _pred_node(S, st), depth - 1)
+            add = seq_segments(S, st.value, S.cfg.node(st), depth - 1)
+            if before is None or add is None:
+                return None
+            return before + add
+        if d0.kind != "assign":
+            return [("seq", e, at)]
+        base = seq_segments(S, d0.value, d0.node, depth - 1)
+        if base is None:
+            return None
+        if e.id not in S._mutated:
+            return base
+        block = _block_of(S, d0.stmt)
+        if block is None:
+            return None
+        muts = [c for c in ast.walk(S.node) if isinstance(c, ast.Call) and isinstance(c.func, ast.Attribute) and isinstance(c.func.value, ast.Name)
+                and c.func.value.id == e.id and c.func.attr in ("append", "extend", "insert", "sort", "pop", "remove", "clear", "reverse")]
+        segs = list(base)
+        i0 = block.index(d0.stmt)
+        top = {id(st.value): st for st in block[i0 + 1:] if isinstance(st, ast.Expr)}
+        use_line = S.cfg.g.nodes[at]["stmt"].lineno if S.cfg.g.nodes[at].get("stmt") is not None else 10 ** 9
+        for c in sorted(muts, key=lambda c: (c.lineno, c.col_offset)):
+            if c.lineno < d0.stmt.lineno or c.lineno > use_line:
+                continue
+            if id(c) not in top:
+                return None
+            a_ = S.cfg.node(top[id(c)])
+            if c.func.attr == "append" and len(c.args) == 1:
+                segs.append(("el", c.args[0], a_))
+            elif c.func.attr == "extend" and len(c.args) == 1:
+                sub = seq_segments(S, c.args[0], a_, depth - 1)
+                if sub is None:
+                    return None
+                segs += sub
+            elif c.func.attr == "insert" and len(c.args) == 2 and isinstance(c.args[0], ast.Constant) and c.args[0].value == 0:
+                segs.insert(0, ("el", c.args[1], a_))
+            else:
+                return None
+        if any(isinstance(n, ast.Subscript) and isinstance(n.ctx, (ast.Store, ast.Del)) and isinstance(n.value, ast.Name) and n.value.id == e.id
+               for n in ast.walk(S.node)):
+            return None
+        return segs
+    return [("seq", e, at)]
+
+
+def _block_of(S: Sem, st: ast.stmt) -> Optional[List[ast.stmt]]:
+    par = S.pm.get(st, S.node) if st is not S.node else None
+    if par is None:
+        return None
+    for fld in ("body", "orelse", "finalbody"):
+        b = getattr(par, fld, None)
+        if isinstance(b, list) and any(x is st for x in b):
+            return b
+    return None
+
+
+def _pred_node(S: Sem, st: ast.stmt) -> int:
+    """a CFG node from which the definitions reaching *before* `st` can be read: st's own node (reaching is computed on entry)"""
+    return S.cfg.node(st)
 
 
 def _ancestors(S: Sem, n: ast.AST) -> List[ast.AST]:
